@@ -20,6 +20,7 @@ import (
 	"net"
 	"strings"
 	"sync"
+	"sync/atomic"
 	"time"
 
 	"verifharness/lnmodel"
@@ -49,6 +50,9 @@ type Fake struct {
 	// Canceled: invoices (payment hash) reported CANCELED (lapsed unpaid)
 	Canceled map[string]bool
 	pendSeq  int
+	// NoRouteEvery > 0: every n-th QueryRoutes request that names a fee limit is answered "unable to find
+	// a path" (set by the checks that want it, between operations)
+	NoRouteEvery int64
 }
 
 func (f *Fake) node() *lnmodel.Node {
@@ -258,8 +262,27 @@ func (s *lightningSrv) DecodePayReq(ctx context.Context, in *lnrpc.PayReqString)
 var reqs = map[string]string{} // payment hash -> bolt11
 var reqsMu sync.Mutex
 
+var queryRoutesWithLimit int64
+
 func (s *lightningSrv) QueryRoutes(ctx context.Context, in *lnrpc.QueryRoutesRequest) (*lnrpc.QueryRoutesResponse, error) {
-	var fee uint64 = 1 << 40
+	// without a fee limit lnd falls back to its default (the whole amount up to 1000 sat, 5 % above)
+	amtSat := uint64(in.AmtMsat) / 1000
+	if in.Amt > 0 {
+		amtSat = uint64(in.Amt)
+	}
+	fee := amtSat
+	if amtSat > 1000 {
+		fee = amtSat / 20
+	}
+	if in.FeeLimit != nil {
+		// on request (NoRouteEvery) a query that names a fee limit finds no route within it ("unable to find a path"): an
+		// ordinary answer of a node whose cheap channels are busy. A request without the limit does find one.
+		if every := atomic.LoadInt64(&s.f.NoRouteEvery); every > 0 {
+			if n := atomic.AddInt64(&queryRoutesWithLimit, 1); n%every == 0 {
+				return nil, status.Error(codes.Unknown, "unable to find a path to destination")
+			}
+		}
+	}
 	if fl := in.FeeLimit; fl != nil {
 		switch l := fl.Limit.(type) {
 		case *lnrpc.FeeLimit_Fixed:
